@@ -35,6 +35,8 @@ def literal_set(assigns, name):
 
 
 def check(prog, rep):
+    from . import pitfalls as _pit
+    rep.section(_pit.report, prog, rep, 'R09.P', ['src/optyx/solvers/scipy_solver.py'], ('P1', 'P3'))
     mins = [(fi, c) for fi, c, w in backend_calls(prog) if w.endswith(".minimize")]
     if not mins:
         raise AnalysisError("no minimize() call site")
